@@ -15,7 +15,8 @@ ALIAS_FUNCS = {
     'np.lib.stride_tricks.as_strided': 1, 'np.lib.stride_tricks.sliding_window_view': 1,
     'np.ascontiguousarray': 1, 'np.asfortranarray': 1, 'np.require': 1,
     'np.ma.masked_where': 0,   # copy=True by default -> handled as fresh below
-    'NDData': 3, 'CCDData': 3, 'StdDevUncertainty': 1,
+    'NDData': 3, 'CCDData': 3, 'StdDevUncertainty': 1, 'reshape_as_blocks': 1,
+    'extract_array': 1,
 }
 ALIAS_FUNC_SHORT = {k.split('.')[-1] for k in ALIAS_FUNCS if k.startswith('np.')
                     and not k.startswith('np.ma.')} - {'masked_where', 'array'}
@@ -132,3 +133,41 @@ LOCAL_SCALARS = {
     ('photutils/aperture/stats.py::ApertureStats.var', 'unit'),
     ('photutils/aperture/stats.py::ApertureStats.biweight_midvariance', 'unit'),
 }
+
+# module roots whose functions return fresh objects unless listed in the alias tables
+FRESH_MODULE_ROOTS = {'np', 'numpy', 'scipy', 'ndimage', 'math', 'warnings', 'u', 'bn',
+                      'bottleneck', 'signal', 'interpolate', 'optimize', 'special', 'stats',
+                      'inspect', 'itertools', 'functools', 'copy', 'os', 're', 'time', 'plt',
+                      'mpl', 'matplotlib', 'multiprocessing', 'sys', 'contextlib'}
+# external callables (by short name) known to return fresh objects
+FRESH_EXTERNALS = {
+    # scipy / skimage / astropy numerics
+    'convolve', 'convolve_fft', 'fftconvolve', 'generic_filter', 'maximum_filter', 'zoom',
+    'map_coordinates', 'binary_dilation', 'binary_erosion', 'label', 'find_objects',
+    'sum_labels', 'watershed', 'block_reduce', 'block_replicate', 'discretize_model',
+    'fclusterdata', 'root_scalar', 'leastsq', 'erf', 'j1', 'biweight_location',
+    'biweight_scale', 'biweight_midvariance', 'mad_std', 'gaussian_fwhm_to_sigma', 'lstsq',
+    'sigma_clipped_stats', 'sigma_clip', 'SigmaClip', 'median_absolute_deviation',
+    'overlap_slices', 'PchipInterpolator', 'RectBivariateSpline', 'KDTree', 'cKDTree',
+    # astropy containers / models / tables constructed from scratch (columns are copied)
+    'QTable', 'Table', 'vstack', 'hstack', 'join', 'Column', 'SkyCoord', 'WCS',
+    'Gaussian1D', 'Gaussian2D', 'Const2D', 'TRFLSQFitter', 'LevMarLSQFitter', 'Parameter',
+    'ProgressBar', 'tqdm', 'ProcessPoolExecutor', 'as_completed', 'get_context', 'deepcopy',
+    'defaultdict', 'OrderedDict', 'namedtuple', 'partial', 'Rectangle', 'Circle', 'Ellipse',
+    'Polygon', 'ListedColormap', 'shape', 'transform', 'shapes', 'Regions', 'fits', 'open',
+    'print', 'format', 'ValueError', 'TypeError', 'KeyError', 'IndexError', 'RuntimeError',
+    'NotImplementedError', 'AstropyUserWarning', 'AstropyDeprecationWarning', 'UnitsError',
+    'NoOverlapError', 'PartialOverlapError', 'NonFiniteValueError', 'NoDetectionsWarning',
+    'isiterable', 'make_repr', 'object.__new__', 'super', 'vars', 'dir', 'minversion',
+}
+
+# imported names from these modules return fresh objects unless listed in the alias tables
+FRESH_IMPORT_PREFIXES = (
+    'scipy', 'numpy', 'skimage', 'bottleneck', 'astropy.stats', 'astropy.convolution',
+    'astropy.table', 'astropy.modeling', 'astropy.units', 'astropy.coordinates', 'astropy.wcs',
+    'astropy.utils', 'astropy.io', 'astropy.version', 'photutils.geometry', 'collections',
+    'concurrent', 'multiprocessing', 'shapely', 'rasterio', 'regions', 'matplotlib', 'tqdm',
+    'photutils.utils._optional_deps', 'photutils.utils.exceptions', 'astropy.nddata.NoOverlapError',
+    'astropy.nddata.overlap_slices', 'astropy.nddata.block_replicate',
+    'astropy.nddata.block_reduce', 'astropy.nddata.StdDevUncertainty',
+)
